@@ -71,6 +71,13 @@ class SpecTask(Task):
                 else:
                     out += float(np.sum(np.abs(np.array(_flat([v]) if not isinstance(v, (list, tuple, np.ndarray)) else _flat(v), dtype=float))))
             return out
+        if self.data["obj"].startswith("mutating:"):
+            # an objective that works IN PLACE on the list it is given (sorts it, rescales it): legal - the framework hands every evaluation its own corrected copy
+            val = objective_value(self.data["obj"][9:], x)
+            if isinstance(x, list) and all(isinstance(u, (int, float)) for u in x):
+                x.sort(reverse=True)
+                if x: x[0] = x[0] * 3.0 + 100.0
+            return val
         val = objective_value(self.data["obj"], x)
         return val
 
